@@ -33,7 +33,8 @@ impl FlowArgs {
         if self.branch_config.pre_release_label.is_none() {
             None
         } else {
-            let hash_len = self.hash_branch_len.to_string();
+            // The hash becomes the u32 pre-release number: ten digits can exceed u32::MAX, nine always fit
+            let hash_len = self.hash_branch_len.min(9).to_string();
 
             let pre_release_num_content = if let Some(num) = self.branch_config.pre_release_num {
                 num.to_string()
